@@ -65,13 +65,21 @@ impl InputVariant {
         })
         .parse_attributes(&v.attrs)?;
 
+        // A `default` on the enum is a value of the enum: it has no fields that a field of one
+        // of the variants could fall back to, so that option is not inherited here.
+        let field_parent = parent.map(|p| {
+            let mut p = p.clone();
+            p.default = None;
+            p
+        });
+
         // Like the fields of a struct, the fields of a variant are all looked at, so that
         // every faulty one is reported and not only the first.
         let mut errors = Error::accumulator();
         starter.data.fields = v
             .fields
             .iter()
-            .filter_map(|item| errors.handle(InputField::from_field(item, parent)))
+            .filter_map(|item| errors.handle(InputField::from_field(item, field_parent.as_ref())))
             .collect();
         errors.finish()?;
 
